@@ -214,7 +214,7 @@ func corrC01(r *Run) {
 				in = fmt.Sprintf("after a Marshal that failed (%s): ", *hist) + in
 			}
 			if panicked {
-				r.Fail("roundtrip/marshal-panic/"+t.Name, "Marshal panicked on a representable value", in, pmsg, "no panic")
+				r.Fail(pcls("roundtrip/marshal-panic/"+t.Name, pmsg), "Marshal panicked on a representable value", in, pmsg, "no panic")
 				continue
 			}
 			if err != nil || len(w.calls) != 1 {
@@ -250,7 +250,7 @@ func corrC01(r *Run) {
 			}
 			switch {
 			case o.Kind == "panic":
-				fail("roundtrip/readpdu-panic/"+t.Name, "ReadPDU panicked on Marshal's output", o.Msg, "no panic")
+				fail(pcls("roundtrip/readpdu-panic/"+t.Name, o.Msg), "ReadPDU panicked on Marshal's output", o.Msg, "no panic")
 			case o.Kind != "ok":
 				fail("roundtrip/readpdu-error/"+t.Name, "ReadPDU rejected Marshal's output", fmt.Sprintf("%s err=%v", o.Kind, o.Err), "success")
 			default:
@@ -301,7 +301,7 @@ func corrC01(r *Run) {
 		_, err, w, panicked, pmsg := marshalRec(it.p)
 		in := "roundtrip (loaded content " + it.what + ") " + it.t.Name + " " + coqValue(orig)
 		if panicked {
-			r.Fail("roundtrip/marshal-panic/"+it.t.Name, "Marshal panicked on a representable value", in, pmsg, "no panic")
+			r.Fail(pcls("roundtrip/marshal-panic/"+it.t.Name, pmsg), "Marshal panicked on a representable value", in, pmsg, "no panic")
 			continue
 		}
 		if err != nil || len(w.calls) != 1 {
@@ -313,7 +313,7 @@ func corrC01(r *Run) {
 		r.Count(it.what, true, "loaded-content")
 		switch {
 		case o.Kind == "panic":
-			r.Fail("roundtrip/readpdu-panic/"+it.t.Name, "ReadPDU panicked on Marshal's output", in, o.Msg, "no panic")
+			r.Fail(pcls("roundtrip/readpdu-panic/"+it.t.Name, o.Msg), "ReadPDU panicked on Marshal's output", in, o.Msg, "no panic")
 		case o.Kind != "ok":
 			r.Fail("roundtrip/readpdu-error/"+it.t.Name, "ReadPDU rejected Marshal's output", in+" frame="+shortHex(frame), fmt.Sprintf("%s err=%v", o.Kind, o.Err), "success")
 		case canonNoLenID(o.PDU) != canonNoLenID(orig):
@@ -349,7 +349,7 @@ func corrC01(r *Run) {
 			in := "roundtrip (dense sweep: " + it.what + ") " + it.t.Name + " " + coqValue(orig) + " frame=" + shortHex(frame)
 			switch {
 			case o.Kind == "panic":
-				r.Fail("roundtrip/readpdu-panic/"+it.t.Name, "ReadPDU panicked on Marshal's output", in, o.Msg, "no panic")
+				r.Fail(pcls("roundtrip/readpdu-panic/"+it.t.Name, o.Msg), "ReadPDU panicked on Marshal's output", in, o.Msg, "no panic")
 			case o.Kind != "ok":
 				r.Fail("roundtrip/readpdu-error/"+it.t.Name, "ReadPDU rejected Marshal's output", in, fmt.Sprintf("%s err=%v", o.Kind, o.Err), "success")
 			case canonNoLenID(o.PDU) != canonNoLenID(orig):
